@@ -955,8 +955,18 @@ class EventBus:
         # Clear idle state when we get an event
         self._on_idle.clear()
 
+        lock = _get_global_lock()
+        if from_queue and lock.locked() and not holds_global_lock.get():
+            # Another bus is in the middle of an event. Don't hold this event outside of the queue while waiting
+            # for our turn: the handler holding the lock may be awaiting exactly this event (or one of its ancestors),
+            # and it can only find and process it if it is still in the queue
+            self.event_queue._queue.appendleft(event)  # type: ignore[attr-defined]
+            async with lock:
+                pass
+            return None
+
         # Always acquire the global lock (it's re-entrant across tasks)
-        async with _get_global_lock():
+        async with lock:
             # Process the event
             await self.process_event(event, timeout=timeout)
 
